@@ -4,6 +4,7 @@ CONSTANTS
   DtOverDx <- HsQuick
   Operators = {"upwind", "kappa13"}
   ImplKinds = {"implicit", "cranknicolson", "gear"}
+  DtModes = {"global"}
   MaxSteps = 2
   ImplDeviations = {"NoisyJacobian"}
 INVARIANT DefiningRelation
